@@ -233,6 +233,8 @@ type zzMemPersistence struct {
 	rpm     map[string]map[int]float64
 	pwmMaps map[string]map[int]int
 	saves   int
+	// failRpmSave makes SaveFanPwmData fail (disk full, database locked ...)
+	failRpmSave bool
 }
 
 var errZZNotFound = zzErr("zz: not found")
@@ -250,6 +252,9 @@ func (p *zzMemPersistence) LoadFanPwmData(fan fans.Fan) (map[int]float64, error)
 	return d, nil
 }
 func (p *zzMemPersistence) SaveFanPwmData(fan fans.Fan) error {
+	if p.failRpmSave {
+		return errZZNotFound
+	}
 	p.saves++
 	p.rpm[fan.GetId()] = *fan.GetFanRpmCurveData()
 	return nil
